@@ -50,7 +50,7 @@ type Seam struct {
 	Applies func(src map[string]string) bool
 }
 
-var big = strings.Repeat("0123456789abcdef", 70*1024/16)
+var big = bigContent(70 * 1024)
 
 // Sources are the source sets (name -> path -> content).
 var Sources = []struct {
@@ -687,4 +687,14 @@ func atomicKill(r *evid.Run) {
 	r.Set("atomic_put_observations", observations)
 	_ = json.Marshal
 	_ = io.EOF
+}
+
+// bigContent returns n bytes that are position-encoded (no period), so that a chunk written twice,
+// dropped or reordered changes the content.
+func bigContent(n int) string {
+	var b strings.Builder
+	for i := 0; b.Len() < n; i++ {
+		fmt.Fprintf(&b, "%07d|", i)
+	}
+	return b.String()[:n]
 }
